@@ -102,9 +102,12 @@ func (st *SimpleTableServicer) GetRowsByID(srv GRIPSource_GetRowsByIDServer) err
 			if row, err := dr.FetchRow(req.Id); err == nil {
 				data, _ := structpb.NewStruct(row.Value)
 				srv.Send(&Row{Id: row.Key, Data: data, RequestID: req.RequestID})
+			} else {
+				//every request is answered: a row without an id says there is none
+				srv.Send(&Row{RequestID: req.RequestID})
 			}
 		} else {
-			//do something here
+			srv.Send(&Row{RequestID: req.RequestID})
 		}
 	}
 	return nil
